@@ -392,6 +392,12 @@ def run_real(sc, line_preempt=None, wall_s=20.0, max_steps=6000):
             websocket.setReconnect(simsched.secs(sc["rc_global"]))
         for ri, run in enumerate(sc["runs"]):
             net.begin_run(outcomes_of(run))
+            holder["ri"] = ri
+            if sc.get("sslopts"):
+                # (real runs only) `sslopt` is an argument of each run_forever() call
+                rf.pop("sslopt", None)
+                if sc["sslopts"][ri] is not None:
+                    rf["sslopt"] = dict(sc["sslopts"][ri])
             if sc.get("kopts"):
                 kiv, kto = sc["kopts"][ri]
                 rf["ping_interval"] = simsched.secs(kiv) if kiv else 0
@@ -445,7 +451,12 @@ def run_real(sc, line_preempt=None, wall_s=20.0, max_steps=6000):
             s.spawn("closer", closer_flag)
         main()
 
-    extra = [(_http, "socket", net), (_http, "_ssl_socket", lambda sock, sslopt, hostname: sock)]
+    wraps = []
+
+    def _wrap(sock, sslopt, hostname):
+        wraps.append((holder.get("ri"), dict(sslopt or {}), hostname))
+        return sock
+    extra = [(_http, "socket", net), (_http, "_ssl_socket", _wrap)]
     saved_env = {k: os.environ.pop(k) for k in list(os.environ)
                  if k.lower() in ("http_proxy", "https_proxy", "no_proxy", "all_proxy")}
     tracer = None
@@ -495,6 +506,7 @@ def run_real(sc, line_preempt=None, wall_s=20.0, max_steps=6000):
     gc.collect()
     res.leaked = net.live()
     res.leaked_at_return = live_at_ret
+    res.wraps = wraps
     return res
 
 
